@@ -127,18 +127,76 @@ def run(chk):
             mn = Poly.sym(f'raw:sigmavMin_to_sigmav3d{com}_i16') * Poly.sym(f'raw:sigmav3d{com}') / U.INT16SCALE * Z
             want = s3 * s3 - maj * maj - mn * mn
             if isinstance(v, Sqrt):
-                p = v.p.subst('INT16SCALE', Poly.const(scale))
+                p = v.square().subst('INT16SCALE', Poly.const(scale))
                 chk.check(p == want and degrees(p) == {(0, 2)}, 'C05-R3', CAT, SETUP, name, f'= sqrt({p})',
                           f'{name}^2 = {p} with (B,Z)-degrees {sorted(degrees(p))}; must be sigmav3d^2 - Maj^2 - Min^2 in velocity units: {want}',
                           node=node, nf=str(p))
             else:
                 chk.refuted('C05-R3', CAT, SETUP, name, f'{name} = {v}: not a square root of a homogeneous polynomial', node=node)
+            # the radicand is a difference that vanishes when the stored Min and Max ratios use up all of sigmav3d: formed from rounded
+            # float32 squares it comes out a few ulp below zero (NaN) on that boundary and loses digits near it; formed on the stored
+            # integer ratios (32000^2 - rmax^2 - rmin^2 in 64-bit integers) it is exact
+            ok_exact, why_exact = _exact_radicand(node, lt)
+            chk.check(ok_exact, 'C05-R3', CAT, SETUP, f'{name}: the radicand is formed in exact integer arithmetic on the stored ratios', '',
+                      f'{name}: {why_exact}: for ratio pairs with Min^2 + Max^2 = 32000^2 (e.g. (19200, 25600)) the result is NaN for a large part of the halos instead of 0, '
+                      'and the converted and unconverted loads disagree on which', node=node, nontrivial=False)
         else:
             unclassified[name] = str(getattr(v, 'tag', v))
     chk.extra['class_counts'] = counts
     chk.extra['unclassified_columns'] = unclassified
     chk.check(not hdr_reads, 'C05-R4', CAT, SETUP, 'loaders read only m/raw/halos and the two unit constants',
               f'{len(lt.entries)} loaders', f'loader reads request- or header-dependent state: {hdr_reads[:4]}', node=lt.fn)
+
+
+def _exact_radicand(node, lt=None):
+    """node: the loader (lambda or def) of sigmavMid.  The argument of np.sqrt, with local names resolved, must be a sum/difference whose
+    leaves are integer constants (or int(<constant>) ** 2) and squares of names bound to an int64 view of a raw `_i16` column."""
+    body = node.body if isinstance(node, ast.FunctionDef) else [ast.Return(value=node.body)] if isinstance(node, ast.Lambda) else None
+    if body is None and isinstance(node, ast.Assign):
+        if isinstance(node.value, ast.Lambda):
+            return _exact_radicand(node.value, lt)
+        if isinstance(node.value, ast.Name) and lt is not None and node.value.id in lt.localdefs:
+            return _exact_radicand(lt.localdefs[node.value.id], lt)
+        return False, 'loader not a function'
+    if body is None:
+        return False, 'loader not a function'
+    defs = {}
+    for st in body:
+        for x in ast.walk(st):
+            if isinstance(x, ast.Assign) and len(x.targets) == 1 and isinstance(x.targets[0], ast.Name):
+                defs[x.targets[0].id] = x.value
+    sq = [c for st in body for c in ast.walk(st) if isinstance(c, ast.Call) and dotted(c.func) in ('np.sqrt', 'math.sqrt') and c.args]
+    if len(sq) != 1:
+        return False, f'{len(sq)} square roots in the loader'
+    e = sq[0].args[0]
+    while isinstance(e, ast.Name) and e.id in defs:
+        e = defs[e.id]
+    leaves = []
+
+    def flat(x):
+        if isinstance(x, ast.BinOp) and isinstance(x.op, (ast.Add, ast.Sub)):
+            flat(x.left)
+            flat(x.right)
+        else:
+            leaves.append(x)
+    flat(e)
+
+    def int_valued(x):
+        if isinstance(x, ast.Constant) and isinstance(x.value, int):
+            return True
+        if isinstance(x, ast.Call) and dotted(x.func) in ('int', 'np.int64') and len(x.args) == 1:
+            return True
+        if isinstance(x, ast.BinOp) and isinstance(x.op, (ast.Pow, ast.Mult)):
+            return int_valued(x.left) and int_valued(x.right)
+        if isinstance(x, ast.Name) and x.id in defs:
+            d = defs[x.id]
+            t = unparse(d)
+            return ('_i16' in t) and ('np.int64' in t or "dtype='i8'" in t or 'dtype=int' in t)
+        return False
+    bad = [unparse(x)[:50] for x in leaves if not int_valued(x)]
+    if bad:
+        return False, f'the radicand {unparse(e)[:90]} is a difference of floating-point terms ({bad[0]})'
+    return True, ''
 
 
 # --------------------------------------------------------------------------- R7
